@@ -197,9 +197,10 @@ void rf_wavheader_set_num_frames(rf_wavheader_t *wh, unsigned int num_frames)
 	wh->chunk_size -= wh->data_chunk_size;
 
 	wh->data_chunk_size = num_frames * wh->block_align;
-	// doesn't matter if there is no fact chunk, we'll not emit this if this
-	// chunk is absent
-	wh->sample_length = num_frames * wh->num_channels;
+	// sample_length lives in the fact chunk; without one it is not part of
+	// the header (it is neither emitted nor decoded) and stays clear
+	if (0 == memcmp(fact, wh->fact_chunk_id, 4))
+		wh->sample_length = num_frames * wh->num_channels;
 	wh->chunk_size += num_frames * wh->block_align;
 }
 
